@@ -50,6 +50,17 @@ def assume_default(term, node, interp):
     obligation: exceptional paths are not taken"""
     r = repr(term)
     if term.op == "raises":
+        if term.args[0] == "NotFittedError" and len(term.args) > 2:
+            a = term.args[2]
+            # a regressor built in place (or a clone of one) is unfitted; one that
+            # went through .fit is fitted; a caller-supplied object: both paths
+            r = repr(a)
+            if a.op == "after" or "after(" in r:
+                return False
+            if a.op in ("new", "clone"):
+                return True
+            if a.op == "sym":
+                return None
         return False
     return None
 
